@@ -257,7 +257,26 @@ def F14():
         return 'rejected add changed the result: pixdim[4]=%r (expected 100.0)' % float(nii.header['pixdim'][4])
 
 
-ALL = ['F1', 'F2', 'F3', 'F4', 'F5', 'F6', 'F7', 'F8', 'F9', 'F10', 'F11', 'F12', 'F13', 'F14']
+def F15():
+    # guessed ordering: two files tie on (EchoTime, position) and straddle a volume boundary
+    def mk(inst, te, z):
+        return _mk_ds(ipp=(0., 0., float(z)), inst=inst, extra={'EchoTime': float(te)})
+    specs = [(1, 10, 0), (2, 10, 0), (3, 10, 1), (4, 20, 1)]
+    outs = []
+    for order in ([0, 1, 2, 3], [1, 0, 2, 3]):
+        st = dcmstack.DicomStack()
+        for i in order:
+            st.add_dcm(mk(*specs[i]))
+        try:
+            outs.append(np.asarray(st.to_nifti(voxel_order='').dataobj).tobytes())
+        except dcmstack.InvalidStackError:
+            outs.append(None)
+    if outs[0] is not None or outs[1] is not None:
+        return 'incomplete grid (cell TE=10,z=0 filled twice, TE=20,z=0 empty) converts%s' % (
+            '; result depends on add order' if outs[0] != outs[1] else '')
+
+
+ALL = ['F15', 'F1', 'F2', 'F3', 'F4', 'F5', 'F6', 'F7', 'F8', 'F9', 'F10', 'F11', 'F12', 'F13', 'F14']
 
 if __name__ == '__main__':
     which = sys.argv[1:] or ALL
